@@ -12,9 +12,6 @@ NA = {
     "C01": "end-to-end numerical correctness on simulated reads (alignment parsing x normalisation x three ILP "
            "optima): no clause of its own is visible in code shape; its structural prerequisites are decided under "
            "C02-C08 and C10. A static verdict would be a runtime test wearing a static label.",
-    "C09": "the catalogue partition quantifies over database contents run through the grouping / renaming / "
-           "fusion-partial / duplicate-removal algorithm; deciding 'no allele lost or merged' needs that algorithm "
-           "executed on data, which static analysis of the loader cannot bound.",
     "C13": "equality of solutions and scores across genome builds / strands relates two executions through the "
            "solver; its structural prerequisites (orientation, offsets, inverse maps) are decided under C08, the "
            "remainder is a runtime relation.",
@@ -28,6 +25,7 @@ TECH = {
     "C06": "per-op tables of the CIGAR walkers derived by partial evaluation of the lifted parser on one tiny read per op (plus a syntactic cursor table read off the if/elif chain) vs the SAM consumes-reference/query table; eligibility loop folded on read stubs; tuple layout; out-of-gene folding",
     "C07": "formula of the lifted normalisation routine folded on sample depth tables (monomial, k-fold invariance, self-profile = 2.0 through the lifted profile writer); sibling depth-counter agreement table per CIGAR op; zero-guard dominance",
     "C08": "lifted coordinate converter folded on generated variants of every kind x strand (sequence-level haplotype equality) plus a syntactic per-kind strand offset table as linear forms over len(); inverse maps and lookup sequence vs an independent reading of the alignment string; stored-notation readers; indel bridge with a recording Variant stub",
+    "C09": "bounded partial evaluation of the lifted database loader on generated gene databases (two builds, opposite strands, fusions, deletion, duplicates; thorough: seeded random allele tables); loaded catalogue checked clause by clause against an independent reading of the database",
     "C10": "guard dominance for empty-stage errors; def-use expansion of the carried score formula; folded selection predicate; positional wiring of re-wrapped solutions",
     "C11": "bounded-exhaustive partial evaluation of the lifted arrangement function and name renderers on every multiset of up to 3 (thorough 5) alleles in every order, checked clause by clause against an independent reading",
     "C12": "sibling cross-check of the carried-variant set algebra in every writer; replicated-mutable-cell rule; REF/ALT derivation per kind branch",
